@@ -44,6 +44,12 @@ class ChunkModel(LinModel):
             it.facts.extend([le(0, C), le(C, REM)])
             it.act('READCHUNK')
             return Sym('CHUNK')
+        if name == 'operator=' and obj is not None and len(args) == 1 and not self.is_buf(fr, obj):
+            o = strip(obj)
+            if o is not None and o['k'] == 'DeclRefExpr' and o.get('d') in fr.env:
+                v = it.ev(fr, args[0], depth)         # a view declared before the loop and assigned in it
+                fr.env[o['d']] = v
+                return v
         if obj is not None:
             ov = it.ev(fr, obj, depth) if not self.is_buf(fr, obj) else Sym('BUF')
             if isinstance(ov, Sym) and ov.tag == 'CHUNK':
@@ -125,7 +131,7 @@ def analyse(prog, f, lp):
     if buf is None:
         return 'the chunks are neither appended to nor copied into a string buffer', {}
     # locals assigned in the loop
-    assigned = set()
+    assigned, views = set(), set()
     for x in f.walk(lp):
         t = None
         if x['k'] in ('BinaryOperator', 'CompoundAssignOperator') and x.get('op', '').endswith('=') and x.get('op') not in ('==', '!=', '<=', '>='):
@@ -134,6 +140,10 @@ def analyse(prog, f, lp):
             t = strip(x['c'][0])
         if t is not None and t['k'] == 'DeclRefExpr':
             assigned.add(t['d'])
+        if x['k'] == 'CXXOperatorCallExpr' and (f.callee(x) or {}).get('n') == 'operator=' and len(x['c']) > 1:
+            t = strip(x['c'][1])
+            if t is not None and t['k'] == 'DeclRefExpr':
+                views.add(t['d'])
     body = child(lp, 'body')
     for x in f.walk(body):
         for dcl in x.get('decls', []) or []:
@@ -152,6 +162,8 @@ def analyse(prog, f, lp):
         fr.env[rem_decl] = REM
         for d, s in syms.items():
             fr.env[d] = s
+        for d in views:
+            fr.env.setdefault(d, TOP)
     ends = {}
 
     class Wrap(ChunkInterp):
@@ -170,6 +182,8 @@ def analyse(prog, f, lp):
                 pass
             finally:
                 it.in_body = False
+            if lp['k'] == 'ForStmt' and child(lp, 'inc') is not None:
+                it.ev(fr, child(lp, 'inc'), depth)       # the increment clause belongs to the iteration
             it.act('END', fr.env.get(rem_decl), dict((d, fr.env.get(d)) for d in others))
             return
         return orig_exec(fr, n, depth)
